@@ -107,3 +107,11 @@ def long_kern_docs(seed, reps=(5, 9)):
         for r in reps:
             out.append((h, ['k', 'b'] + unit * r + ['b'], seed))
     return out
+
+
+WIDE_HEADERS = ['**kern', '**text', '**kern', '**dynam', '**kern', '**harm', '**kern', '**fing', '**root', '**kern', '**mxhm', '**kern']
+
+
+def wide_docs(seed):
+    """twelve spines (two-digit spine ids): beyond the width bound of the exhaustive spaces"""
+    return [(WIDE_HEADERS, ['k', 'i', 'b', 'd', 'd', 'S0', 'd', 'J0', 'X3', 'd', 'c', 'b', 'd', 'S9', 'd', 'b'], seed)]
